@@ -543,7 +543,15 @@ func (g *g) assign() string {
 func (g *g) cmdWord(afterPrefix bool) string {
 	t := &Tok{Kind: KWord, CmdPos: true, Depth: len(g.stack)}
 	var ps []string
-	switch g.ch.Intn(8, "cmdword") {
+	switch g.ch.Intn(9, "cmdword") {
+	case 8:
+		// a word that only begins with the letters of a reserved word
+		w := g.pick("reserved_head", "if", "then", "else", "elif", "fi", "do", "done", "case", "esac", "for", "in", "while", "until", "{", "}", "!")
+		t.Pieces = []Piece{{Text: w}}
+		ps = []string{skel.Lit(w)}
+		ps, t.Pieces = g.reservedTail(ps, t.Pieces)
+		g.f("reserved_word_letters_then_another_part")
+		t.CmdPos = false
 	case 0, 1, 2, 3, 4:
 		w := g.pick("cmdname", "a", "cmd", "echo", "é", "x1", "ls", "true", "go")
 		t.Pieces = []Piece{{Text: w}}
@@ -576,6 +584,28 @@ func (g *g) cmdWord(afterPrefix bool) string {
 	}
 	g.s.add(t)
 	return skel.Word(ps)
+}
+
+// reservedTail appends a part that is not an unquoted literal.
+func (g *g) reservedTail(ps []string, pieces []Piece) ([]string, []Piece) {
+	switch g.ch.Intn(5, "reserved_tail") {
+	case 0:
+		pieces = append(pieces, Piece{Text: "$x"})
+		ps = append(ps, skel.Param(false, "x", "", skel.Nil))
+	case 1:
+		pieces = append(pieces, Piece{Text: `"$y"`})
+		ps = append(ps, skel.Quote(`"`, []string{skel.Param(false, "y", "", skel.Nil)}))
+	case 2:
+		pieces = append(pieces, Piece{Text: "''"})
+		ps = append(ps, skel.Quote("'", []string{skel.Lit("")}))
+	case 3:
+		pieces = append(pieces, Piece{Text: `\a`})
+		ps = append(ps, skel.Quote(`\`, []string{skel.Lit("a")}))
+	case 4:
+		pieces = append(pieces, Piece{Text: "${z}"})
+		ps = append(ps, skel.Param(true, "z", "", skel.Nil))
+	}
+	return ps, pieces
 }
 
 // quotedSkel gives the skeleton of the few fixed quoted spellings above.
@@ -616,6 +646,13 @@ func (g *g) word(label string, arg bool) string {
 		t.Pieces = []Piece{{Text: w}}
 		ps = []string{skel.Lit(w)}
 		g.f("reserved_as_word")
+		if g.chance("reserved_pat_tail", 3) {
+			if g.chance("reserved_pat_esac", 3) {
+				t.Pieces[0].Text, ps[0] = "esac", skel.Lit("esac")
+			}
+			ps, t.Pieces = g.reservedTail(ps, t.Pieces)
+			g.f("reserved_word_letters_then_another_part")
+		}
 	} else {
 		ps, t.Pieces = g.wordParts(nil, label, false, false)
 	}
@@ -875,7 +912,7 @@ func (g *g) bracedParam(dq bool) (string, string) {
 		}
 		switch k {
 		default:
-			w := g.pick("bp_lit", "w", "a b", "*", "é", ".", "/", "x=y", "?", "[a-c]", ";", "|", "#", " ", "日")
+			w := g.pick("bp_lit", "w", "a b", "*", "é", ".", "/", "x=y", "?", "[a-c]", ";", "|", "#", " ", "日", "{", "a{b", "{ ", "(", "<")
 			if i == 0 && (op == "%" || op == "#") && (strings.HasPrefix(w, "#") || strings.HasPrefix(w, "%")) {
 				w = "w"
 			}
